@@ -102,6 +102,10 @@ def check(replay=None):
         for (ing, comp, nk, stall, mand) in [(1, 1, 1000000, 2, 2), (2, 1, 1000000, 3, 1), (4, 2, 4, 2, 1)]:
             docs.append({"ingesters": ing, "compactors": comp, "iters": 60, "nkeys": nk, "pad": 0, "yield_seed": rng.randrange(1, 1 << 30), "timeout": 90,
                          "opts": {"l0-write-stall-threshold-files": stall, "l0-mandatory-compaction-threshold-files": mand, "max-compaction-files": 16}})
+        # a small byte limit per compaction: level-0 compactions are exempt from it and must stay so
+        for (ing, nk, stall) in [(1, 3, 4), (2, 6, 3)]:
+            docs.append({"ingesters": ing, "compactors": 1, "iters": 60, "nkeys": nk, "pad": 600, "yield_seed": rng.randrange(1, 1 << 30), "timeout": 90,
+                         "opts": {"l0-write-stall-threshold-files": stall, "l0-mandatory-compaction-threshold-files": 2, "max-compaction-files": 16, "max-compaction-bytes": 4096}})
         for i in range(8 if not thorough else 60):
             stall = rng.choice([2, 3, 4, 6, 12])
             mand = rng.randint(1, stall)
